@@ -309,7 +309,7 @@ fn compare_answers(env: &mut Env, emb: &Result<QOut, QErr>, endpoint: HttpEndpoi
         Ok(h) => h,
     };
     match (emb, http.status) {
-        (Err(QErr::Panic(m)), _) => env.violate(&format!("query_panicked_in_caller:{}", stem(m)), format!("[{ctx}] run_query({sql:?}) panicked in the calling thread: {m}")),
+        (Err(QErr::Panic(m)), _) => env.violate(&caller_panic_class("query_panicked_in_caller", m), format!("[{ctx}] run_query({sql:?}) panicked in the calling thread: {m}")),
         (Err(e), 200) => env.violate(&format!("http:status_200_for_failing_query:{ep}"), format!("[{ctx}] {ep} {sql:?}: HTTP 200 but the embedded API fails with {}: {}", e.kind(), e.msg())),
         (Err(e), s) => {
             env.count("http_failing_query_mapped");
